@@ -564,3 +564,4 @@ EVIDENCE = {"C15": {
                     "explicit constructor arguments are fresh objects per construct (the caller does not share them)",
                     "instrument_transfer_function stays None (not JSON-serialisable)"],
 }}
+REQUIRED_PROBES = {"C15": ["roundtrip_judged_direct", "roundtrip_judged_dispatcher", "mutated_in_place"]}
